@@ -26,6 +26,10 @@ FnExt subclasses `book.FnExt` (explicit object state `Obj`, MRO tables) and adds
                this code (all must agree); `C.m(self, x)` -> the tied `C.m`; `res = <in-place call>` : `res` names `self`
   exponent     `exponent : ArExp` (value, is-an-int); `isinstance(exponent, int)`, comparisons on its value,
                `exponent - <literal>`, `range(e)` -> pyRange_ar2 (TypeError unless int)
+  reshapings   `tuple((A, b) for a, b in SRC)` with A = `a` or `a if isinstance(a, tuple) else (a,)` -> `tuple(SRC)` (SRC a local
+               snapshot or `<operand>.items()`), and `x = x` after it is dropped; `range(<literal a>, e)` -> pyRangeFrom_ar2;
+               a nested `def f(p): return e` is inlined at its calls on plain locals; an `if` whose body always leaves
+               continues in its else-branch, `if not c: A else: B` is `if c: B else: A`
   control      as book.FnExt; `return self` must be the only kind of return of an in-place method (`returns="Self"`)
 """
 import ast
@@ -214,6 +218,19 @@ class FnExt(B.FnExt):
 
     def call(self, n, env):
         f = n.func
+        if isinstance(f, ast.Name) and isinstance(env.get(f.id), tuple) and env[f.id][0] == "@inline":
+            # a call of a nested single-return helper on a plain name: its return expression with the parameter replaced
+            _, p, e = env[f.id]
+            if n.keywords or len(n.args) != 1 or not isinstance(n.args[0], ast.Name) or env.get(n.args[0].id) is None \
+                    or isinstance(env.get(n.args[0].id), tuple):
+                raise Untranslatable("call of the local helper %s on something that is not a plain local" % f.id, n)
+            import copy
+            arg = n.args[0].id
+
+            class S(ast.NodeTransformer):
+                def visit_Name(self, x):
+                    return ast.copy_location(ast.Name(id=arg, ctx=x.ctx), x) if x.id == p else x
+            return self.expr(ast.fix_missing_locations(S().visit(copy.deepcopy(e))), env)
         if isinstance(f, ast.Name) and not n.keywords:
             name = f.id
             if name in ("tuple", "isinstance", "range", "len") and (name in env or name in self.module_names()):
@@ -227,12 +244,26 @@ class FnExt(B.FnExt):
                     return "(pySelfKeys_ar2 self)", "KeyList"
                 if isinstance(recv, ast.Name) and env.get(recv.id) == "ArOperand" and m == "items":
                     return self.bindx("(pyItems_ar2 self %s)" % mangle(recv.id), "Poly", n)
+            if name == "tuple" and len(n.args) == 1 and isinstance(n.args[0], ast.GeneratorExp):
+                src = self.identity_pairs_source(n.args[0], env)
+                if src is not None:
+                    # `tuple((a, b) for a, b in SRC)` over (key, value) pairs, where a key component may be written
+                    # `a if isinstance(a, tuple) else (a,)` (keys are tuples in the model universe): the same as `tuple(SRC)`
+                    if isinstance(src, ast.Name):
+                        return mangle(src.id), "Poly"
+                    return self.call(ast.copy_location(ast.Call(func=f, args=[src], keywords=[]), n), env)
             if name == "isinstance" and len(n.args) == 2 and isinstance(n.args[0], ast.Name) and isinstance(n.args[1], ast.Name):
                 ta = env.get(n.args[0].id)
                 if ta == "ArOperand" and n.args[1].id == "dict" and "dict" not in self.module_names():
                     return "(pyIsDict_ar2 %s)" % mangle(n.args[0].id), "Bool"
                 if ta == "ArExp" and n.args[1].id == "int" and "int" not in self.module_names():
                     return "(pyExpIsInt_ar2 %s)" % mangle(n.args[0].id), "Bool"
+            if name == "range" and len(n.args) == 2 and self.int_literal(n.args[0]) is not None \
+                    and not self.int_literal(n.args[0]).startswith("("):
+                a, ta = self.expr(n.args[1], env)
+                if ta == "ArExp":
+                    return self.bindx("(pyRangeFrom_ar2 %s %s)" % (self.int_literal(n.args[0]), a), "NatList", n)
+                raise Untranslatable("range(a, b) with b a %s" % ta, n)
             if name == "range" and len(n.args) == 1:
                 a, ta = self.expr(n.args[0], env)
                 if ta == "ArExp":
@@ -263,6 +294,41 @@ class FnExt(B.FnExt):
                 self.need_class_name(recv.id, n)
                 return self.inplace_call(B.lookup(recv.id, m), m, n.args[1], env, n)
         return B.FnExt.call(self, n, env)
+
+    def identity_pairs_source(self, g, env):
+        """for a generator `(A, b) for a, b in SRC` with A = `a` or `a if isinstance(a, tuple) else (a,)`, SRC a local
+        snapshot (Poly) or `<operand or self>.items()`: SRC; None for anything else"""
+        if len(g.generators) != 1:
+            return None
+        gen = g.generators[0]
+        tg, el = gen.target, g.elt
+        if gen.ifs or gen.is_async or not (isinstance(tg, ast.Tuple) and len(tg.elts) == 2
+                                           and all(isinstance(x, ast.Name) for x in tg.elts)):
+            return None
+        a, b = tg.elts[0].id, tg.elts[1].id
+        if a == b or not (isinstance(el, ast.Tuple) and len(el.elts) == 2):
+            return None
+        ka, vb = el.elts
+        if isinstance(ka, ast.IfExp):
+            t = ka.test
+            if not (isinstance(t, ast.Call) and isinstance(t.func, ast.Name) and t.func.id == "isinstance" and not t.keywords
+                    and len(t.args) == 2 and isinstance(t.args[0], ast.Name) and t.args[0].id == a
+                    and isinstance(t.args[1], ast.Name) and t.args[1].id == "tuple"
+                    and not {"isinstance", "tuple"} & (self.module_names() | set(env))
+                    and isinstance(ka.orelse, ast.Tuple) and len(ka.orelse.elts) == 1
+                    and isinstance(ka.orelse.elts[0], ast.Name) and ka.orelse.elts[0].id == a):
+                return None
+            ka = ka.body
+        if not (isinstance(ka, ast.Name) and ka.id == a and isinstance(vb, ast.Name) and vb.id == b):
+            return None
+        it = gen.iter
+        if isinstance(it, ast.Name) and env.get(it.id) == "Poly":
+            return it
+        if isinstance(it, ast.Call) and isinstance(it.func, ast.Attribute) and it.func.attr == "items" and not it.args \
+                and not it.keywords and (self.is_self(it.func.value) or (isinstance(it.func.value, ast.Name)
+                                                                         and env.get(it.func.value.id) == "ArOperand")):
+            return it
+        return None
 
     def inplace_call(self, c, m, arg, env, node):
         """an in-place operator method of `self` called by name: mutates `self` and returns it"""
@@ -296,6 +362,41 @@ class FnExt(B.FnExt):
             raise Untranslatable("return of a %s from a function registered as returning a value" % tv, node)
         return B.FnExt.finish(self, v, tv, node)
 
+    @staticmethod
+    def always_leaves(stmts):
+        """every path through the statements ends in `return` / `raise`"""
+        if not stmts:
+            return False
+        last = stmts[-1]
+        if isinstance(last, (ast.Return, ast.Raise)):
+            return True
+        return isinstance(last, ast.If) and FnExt.always_leaves(last.body) and FnExt.always_leaves(last.orelse)
+
+    def local_single_return_def(self, s):
+        """`def f(p): return e` nested in the function, `f` bound nowhere else in it, `e` reading only `p` and names that
+        are not locals of the enclosing function: (p, e); None otherwise"""
+        a = s.args
+        if len(a.args) != 1 or a.vararg or a.kwarg or a.kwonlyargs or a.defaults or a.posonlyargs or s.decorator_list:
+            return None
+        body = [x for x in s.body if not (isinstance(x, ast.Expr) and isinstance(x.value, ast.Constant)
+                                          and isinstance(x.value.value, str))]
+        if len(body) != 1 or not isinstance(body[0], ast.Return) or body[0].value is None:
+            return None
+        fn = self.fnode
+        binds = [x.id for x in ast.walk(fn) if isinstance(x, ast.Name) and isinstance(x.ctx, ast.Store)] + \
+            [x.name for x in ast.walk(fn) if isinstance(x, (ast.FunctionDef, ast.ClassDef)) and x is not fn] + \
+            [x.arg for x in fn.args.args]
+        if binds.count(s.name) != 1 or any(isinstance(x, (ast.Global, ast.Nonlocal)) for x in ast.walk(fn)):
+            return None
+        e, p = body[0].value, a.args[0].arg
+        if any(isinstance(x, (ast.Lambda, ast.GeneratorExp, ast.ListComp, ast.SetComp, ast.DictComp, ast.NamedExpr, ast.Yield,
+                              ast.YieldFrom, ast.Await)) for x in ast.walk(e)):
+            return None
+        free = {x.id for x in ast.walk(e) if isinstance(x, ast.Name)} - {p}
+        if free & (set(binds) - {p}) or p in binds[:0]:
+            return None
+        return p, e
+
     def stmt(self, stmts, env, k, ind):
         s, rest = stmts[0], stmts[1:]
         pad = " " * ind
@@ -303,6 +404,24 @@ class FnExt(B.FnExt):
         def cont(env2=env):
             return self.block(rest, env2, k, ind)
 
+        if isinstance(s, ast.FunctionDef):
+            pe = self.local_single_return_def(s)
+            if pe is None:
+                raise Untranslatable("nested function %s that is not a single-return helper" % s.name, s)
+            env2 = dict(env)
+            env2[s.name] = ("@inline", pe[0], pe[1])       # its calls are replaced by its return expression
+            return cont(env2)
+        if isinstance(s, ast.If):
+            # exact reshapings: an `if` whose body always leaves continues in its else-branch; `if not c: A else: B` is
+            # `if c: B else: A`
+            test, body, orelse, rest2 = s.test, list(s.body), list(s.orelse), list(rest)
+            if not orelse and rest2 and self.always_leaves(body):
+                orelse, rest2 = rest2, []
+            if isinstance(test, ast.UnaryOp) and isinstance(test.op, ast.Not) and orelse:
+                test, body, orelse = test.operand, orelse, body
+            if test is not s.test or len(rest2) != len(rest):
+                s2 = ast.copy_location(ast.If(test=test, body=body, orelse=orelse), s)
+                return self.stmt([s2] + rest2, env, k, ind)
         if isinstance(s, ast.Return) and s.value is not None and not rest:
             v, tv = self.expr(s.value, env, expected="value")
             if tv == "SelfCall":
@@ -319,6 +438,8 @@ class FnExt(B.FnExt):
                     env2[tg] = "@self"
                     self.raises_now = True
                     return "(%s >>= fun (self : Obj) =>\n%s%s)" % (v[len("\0rebind:"):], pad, cont(env2))
+                if tv == "Poly" and v == mangle(tg) and env.get(tg) == "Poly":
+                    return cont(env)                    # `x = x` (a snapshot rebuilt element by element): nothing happens
                 if tv in ("Obj", "Poly", "KeyList", "NatList"):
                     env2[tg] = tv
                     return "let %s : %s := %s;\n%s%s" % (mangle(tg), lt(tv), v, pad, cont(env2))
